@@ -494,6 +494,12 @@ class Interp:
             wd = int(re.search(r'i(\d+)$', name).group(1))
             if isinstance(x, list): return [f1(p, q, r, wd) for p, q, r in zip(x, y, sh)]
             return f1(x, y, sh, wd)
+        if name.startswith('@llvm.bitreverse') or name.startswith('@llvm.bswap'):
+            wd = int(re.search(r'i(\d+)$', name).group(1)); x = a[0]; unit = 1 if 'bitreverse' in name else 8
+            if is_c(x):
+                parts = [(x >> (unit * i)) & ((1 << unit) - 1) for i in range(wd // unit)]
+                return sum(p_ << (unit * (wd // unit - 1 - i)) for i, p_ in enumerate(parts))
+            return z3.Concat(*[z3.Extract(unit * i + unit - 1, unit * i, x) for i in range(wd // unit)])
         if name.startswith('@llvm.floor'): import math; return float(math.floor(a[0]))
         if name.startswith('@llvm.log2'): import math; return math.log2(a[0])
         if name.startswith('@llvm.ctpop') or name.startswith('@llvm.ctlz') or name.startswith('@llvm.cttz'):
